@@ -5,6 +5,7 @@
 package c10
 
 import (
+	"errors"
 	"fmt"
 	"io"
 	"sort"
@@ -28,7 +29,12 @@ const Rule = "cases = (grammar, iteration-shuffle seed, queries) drawn from VERI
 	"with unreachable and unproductive non-terminals, near-LL(1)); queries: nullable, FIRST of every symbol string of " +
 	"length <=3 (sampled above 160 strings), FOLLOW of every non-terminal, ll1, table, unchanged; plus three families: " +
 	"bodies with a repeated non-terminal, epsilon-chains of depth 3-6 each run under 12 iteration orders, and cases that change " +
-	"the same *CFG object in place (prod/unprod lines between rounds of queries); non-trivial = the grammar " +
+	"the same *CFG object in place (prod/unprod lines between rounds of queries); plus: grammars broken in each of nine ways " +
+	"(every error branch of Verify(), the shapes on which ComputeFIRST / ComputeFOLLOW / the FIRST closure dereference a nil " +
+	"table lookup) with `verify` and the analyses run all the same (`!query`, shuffled so that each gets to be the one that " +
+	"panics; judged against the Model only), caught panics of the FIRST closure followed by the same query (answered from its " +
+	"memo table), IsEmpty / IsSync / GetProduction on every cell incl. rows and columns that do not exist, FOLLOW of an " +
+	"undeclared non-terminal, every other grammar with a terminal named like a non-terminal; non-trivial = the grammar " +
 	"has a nullable non-terminal, a left-corner cycle, or an unreachable/unproductive non-terminal; distinct = distinct (header, op list)"
 
 // ---------------------------------------------------------------- independent oracle
@@ -274,52 +280,110 @@ func showBody(b []string) string {
 
 func prodKey(h string, b []string) string { return h + "→" + showBody(b) }
 
-func symNames(s grammar.String[grammar.Symbol]) []string {
+// Terminals named like non-terminals.  The library tells Terminal("S") and NonTerminal("S") apart by type, the line
+// protocol by name: in case files a word that starts with ' is the terminal named by the rest of the word, and the
+// canonical form (case files, printed answers on both sides) writes the quote exactly when the bare name is a declared
+// non-terminal.  A word that starts with ^ is the non-terminal named by the rest, declared or not (malformed grammars).
+
+const Q = "'"
+
+func Bare(w string) string { return strings.TrimPrefix(w, Q) }
+
+// pr renders library values with the names of the case file.
+type pr struct{ g *gx.G }
+
+func (n pr) term(t grammar.Terminal) string {
+	if n.g.IsNonTerm(string(t)) {
+		return Q + string(t)
+	}
+	return string(t)
+}
+
+// symOf turns a word of the case file into a symbol.
+func (n pr) symOf(w string) grammar.Symbol {
+	switch {
+	case strings.HasPrefix(w, "^"):
+		return grammar.NonTerminal(w[1:])
+	case strings.HasPrefix(w, Q):
+		return grammar.Terminal(w[1:])
+	case n.g.IsNonTerm(w):
+		return grammar.NonTerminal(w)
+	}
+	return grammar.Terminal(w)
+}
+
+func (n pr) symNames(s grammar.String[grammar.Symbol]) []string {
 	out := make([]string, len(s))
 	for i, x := range s {
-		out[i] = string(symName(x))
+		out[i] = n.symName(x)
 	}
 	return out
 }
 
-func symName(x grammar.Symbol) string {
+func (n pr) symName(x grammar.Symbol) string {
 	switch v := x.(type) {
 	case grammar.Terminal:
-		return string(v)
+		return n.term(v)
 	case grammar.NonTerminal:
 		return string(v)
 	}
 	return "?"
 }
 
-func prodKeyOf(p *grammar.Production) string {
+func (n pr) prodKeyOf(p *grammar.Production) string {
 	if p == nil {
 		return "<nil>"
 	}
-	return prodKey(string(p.Head), symNames(p.Body))
+	return prodKey(string(p.Head), n.symNames(p.Body))
 }
 
-func termSet(s set.Set[grammar.Terminal]) strset {
+func (n pr) termSet(s set.Set[grammar.Terminal]) strset {
 	m := strset{}
 	for t := range s.All() {
-		m[string(t)] = true
+		m[n.term(t)] = true
 	}
 	return m
 }
 
+// sliceLexer hands out the tokens of a case line; its call number failAt (counting from 0) answers failErr instead
+// (failErr == nil: never).
 type sliceLexer struct {
-	toks []string
-	i    int
+	toks    []string
+	i       int
+	failAt  int
+	failErr error
 }
 
 func (l *sliceLexer) NextToken() (lexer.Token, error) {
+	if l.failErr != nil && l.i == l.failAt {
+		l.i++
+		return lexer.Token{}, l.failErr
+	}
 	if l.i >= len(l.toks) {
 		return lexer.Token{}, io.EOF
 	}
 	t := l.toks[l.i]
-	tok := lexer.Token{Terminal: grammar.Terminal(t), Lexeme: strconv.Itoa(l.i), Pos: lexer.Position{Offset: l.i}}
+	tok := lexer.Token{Terminal: grammar.Terminal(Bare(t)), Lexeme: strconv.Itoa(l.i), Pos: lexer.Position{Offset: l.i}}
 	l.i++
 	return tok, nil
+}
+
+var (
+	errLexer = errors.New("injected lexer error")
+	errToken = errors.New("injected token-callback error")
+	errProd  = errors.New("injected production-callback error")
+)
+
+// faultArg parses "-" (never) or a number.
+func faultArg(s string) int {
+	if s == "-" {
+		return -1
+	}
+	n, err := strconv.Atoi(s)
+	if err != nil {
+		return -1
+	}
+	return n
 }
 
 func classify(err error) string {
@@ -337,22 +401,22 @@ func classify(err error) string {
 	return "ok reject other:" + strings.ReplaceAll(msg, "\n", " ")
 }
 
-func showTree(n parser.Node) string {
+func (q pr) showTree(n parser.Node) string {
 	switch v := n.(type) {
 	case *parser.LeafNode:
 		lex := v.Lexeme
 		if lex == "" {
 			lex = "?"
 		}
-		return string(v.Terminal) + "@" + lex
+		return q.term(v.Terminal) + "@" + lex
 	case *parser.InternalNode:
 		if v.Production == nil {
 			return "(" + string(v.NonTerminal) + "?)"
 		}
 		var b strings.Builder
-		b.WriteString("(" + prodKeyOf(v.Production))
+		b.WriteString("(" + q.prodKeyOf(v.Production))
 		for _, k := range v.Children {
-			b.WriteString(" " + showTree(k))
+			b.WriteString(" " + q.showTree(k))
 		}
 		b.WriteString(")")
 		return b.String()
@@ -360,20 +424,20 @@ func showTree(n parser.Node) string {
 	return "<nil>"
 }
 
-func treeYield(n parser.Node, out *[]string) {
+func (q pr) treeYield(n parser.Node, out *[]string) {
 	switch v := n.(type) {
 	case *parser.LeafNode:
-		*out = append(*out, string(v.Terminal))
+		*out = append(*out, q.term(v.Terminal))
 	case *parser.InternalNode:
 		for _, k := range v.Children {
-			treeYield(k, out)
+			q.treeYield(k, out)
 		}
 	}
 }
 
 // checkTree: root symbol, every internal node carries a production of its non-terminal whose body
 // spells the children; leaves carry lexemes 0,1,2,… left to right; pre-order productions returned.
-func checkTree(n parser.Node, g gx.G, pre *[]string, leafNo *int) string {
+func (q pr) checkTree(n parser.Node, g gx.G, pre *[]string, leafNo *int) string {
 	switch v := n.(type) {
 	case *parser.LeafNode:
 		if v.Lexeme != strconv.Itoa(*leafNo) || v.Position.Offset != *leafNo {
@@ -385,17 +449,17 @@ func checkTree(n parser.Node, g gx.G, pre *[]string, leafNo *int) string {
 			return "internal node " + string(v.NonTerminal) + " without production"
 		}
 		if v.Production.Head != v.NonTerminal {
-			return "node " + string(v.NonTerminal) + " carries " + prodKeyOf(v.Production)
+			return "node " + string(v.NonTerminal) + " carries " + q.prodKeyOf(v.Production)
 		}
-		*pre = append(*pre, prodKeyOf(v.Production))
+		*pre = append(*pre, q.prodKeyOf(v.Production))
 		if len(v.Children) != len(v.Production.Body) {
-			return "node " + prodKeyOf(v.Production) + " has " + strconv.Itoa(len(v.Children)) + " children"
+			return "node " + q.prodKeyOf(v.Production) + " has " + strconv.Itoa(len(v.Children)) + " children"
 		}
 		for i, k := range v.Children {
 			if k.Symbol().Name() != v.Production.Body[i].Name() || k.Symbol().IsTerminal() != v.Production.Body[i].IsTerminal() {
-				return "child " + strconv.Itoa(i) + " of " + prodKeyOf(v.Production) + " is " + k.Symbol().Name()
+				return "child " + strconv.Itoa(i) + " of " + q.prodKeyOf(v.Production) + " is " + k.Symbol().Name()
 			}
-			if msg := checkTree(k, g, pre, leafNo); msg != "" {
+			if msg := q.checkTree(k, g, pre, leafNo); msg != "" {
 				return msg
 			}
 		}
@@ -452,6 +516,7 @@ func Exec(c hx.Case) hx.Result {
 	// query; description lines after that change the SAME object in place (Productions.Add/Remove, …), so
 	// anything a parser or an analysis kept from an earlier state of the object shows.
 	var G gx.G
+	P := pr{&G}
 	var cfg, clone *grammar.CFG
 	dirty := true
 	valid := false
@@ -471,13 +536,23 @@ func Exec(c hx.Case) hx.Result {
 	mkProd := func(head string, body []string) *grammar.Production {
 		b := grammar.String[grammar.Symbol]{}
 		for _, x := range body {
-			if G.IsNonTerm(x) {
-				b = append(b, grammar.NonTerminal(x))
-			} else {
-				b = append(b, grammar.Terminal(x))
-			}
+			b = append(b, P.symOf(x))
 		}
 		return &grammar.Production{Head: grammar.NonTerminal(head), Body: b}
+	}
+	mkString := func(ws []string) grammar.String[grammar.Symbol] {
+		var s grammar.String[grammar.Symbol]
+		for _, w := range ws {
+			s = append(s, P.symOf(w))
+		}
+		return s
+	}
+	// canon: the word as the oracle's grammar spells it (a ^ in front of a declared non-terminal is dropped)
+	canon := func(w string) string {
+		if strings.HasPrefix(w, "^") && G.IsNonTerm(w[1:]) {
+			return w[1:]
+		}
+		return w
 	}
 	// applyDesc folds one description line into G (and into the live object); false: not a description line
 	applyDesc := func(f []string) bool {
@@ -488,7 +563,7 @@ func Exec(c hx.Case) hx.Result {
 					G.Terms = append(G.Terms, t)
 				}
 				if cfg != nil {
-					cfg.Terminals.Add(grammar.Terminal(t))
+					cfg.Terminals.Add(grammar.Terminal(Bare(t)))
 				}
 			}
 		case f[0] == "nonterms":
@@ -506,7 +581,10 @@ func Exec(c hx.Case) hx.Result {
 				cfg.Start = grammar.NonTerminal(f[1])
 			}
 		case f[0] == "prod" && len(f) >= 3 && f[2] == ":":
-			body := append([]string{}, f[3:]...)
+			body := []string{}
+			for _, w := range f[3:] {
+				body = append(body, canon(w))
+			}
 			k := prodKey(f[1], body)
 			dup := false
 			for _, p := range G.Prods {
@@ -521,7 +599,10 @@ func Exec(c hx.Case) hx.Result {
 				cfg.Productions.Add(mkProd(f[1], body))
 			}
 		case f[0] == "unprod" && len(f) >= 3 && f[2] == ":":
-			body := append([]string{}, f[3:]...)
+			body := []string{}
+			for _, w := range f[3:] {
+				body = append(body, canon(w))
+			}
 			k := prodKey(f[1], body)
 			var ps []gx.P
 			for _, p := range G.Prods {
@@ -542,6 +623,21 @@ func Exec(c hx.Case) hx.Result {
 		dirty = true
 		return true
 	}
+	toCFG := func() *grammar.CFG {
+		ts := make([]grammar.Terminal, len(G.Terms))
+		for i, t := range G.Terms {
+			ts[i] = grammar.Terminal(Bare(t))
+		}
+		ns := make([]grammar.NonTerminal, len(G.NonTerms))
+		for i, n := range G.NonTerms {
+			ns[i] = grammar.NonTerminal(n)
+		}
+		ps := make([]*grammar.Production, len(G.Prods))
+		for i, p := range G.Prods {
+			ps[i] = mkProd(p.Head, p.Body)
+		}
+		return grammar.NewCFG(ts, ns, ps, grammar.NonTerminal(G.Start))
+	}
 	ensureTable := func() {
 		if !tableBuilt {
 			table, tableErr = predictive.BuildParsingTable(cfg)
@@ -551,12 +647,17 @@ func Exec(c hx.Case) hx.Result {
 	// setup (re)computes everything that depends on the grammar's current state
 	setup := func() {
 		if cfg == nil {
-			cfg = G.ToCFG()
+			cfg = toCFG()
 		}
 		dirty = false
 		clone = cfg.Clone()
 		valid = cfg.Verify() == nil
 		orc, langK, langKk, first, follow, table, tableErr, tableBuilt = nil, nil, -1, nil, nil, nil, nil, false
+		for _, t := range G.Terms {
+			if strings.HasPrefix(t, Q) {
+				tags["terminal-named-like-nonterminal"] = true
+			}
+		}
 		if valid {
 			orc = NewOracle(G)
 			if len(orc.Nullable) > 0 {
@@ -606,8 +707,10 @@ func Exec(c hx.Case) hx.Result {
 	}
 	// membership oracle: the exact bounded language for short inputs, an Earley recogniser for long ones
 	inLang := func(w []string) bool {
-		if len(w) > 8 {
-			tags["long-input"] = true
+		if len(w) > 8 || len(w) > maxWord {
+			if len(w) > 8 {
+				tags["long-input"] = true
+			}
 			return Earley(G, w)
 		}
 		if langKk < 0 {
@@ -637,9 +740,14 @@ func Exec(c hx.Case) hx.Result {
 		out := "bad-op"
 		hung := false
 		kind := ""
+		forced := strings.HasPrefix(f[0], "!")
+		cmd := strings.TrimPrefix(f[0], "!")
+		// judge: the oracle speaks only about grammars that pass Verify(); forced queries on other grammars are
+		// corresponded with the Model (which predicts the nil dereferences) and nothing else
+		judge := valid
 		run := func() {
 			kind = hx.Try(func() {
-				if f[0] == "unchanged" {
+				if cmd == "unchanged" {
 					same := cfg.Equal(clone)
 					out = "ok " + strconv.FormatBool(same)
 					if !same {
@@ -647,34 +755,56 @@ func Exec(c hx.Case) hx.Result {
 					}
 					return
 				}
-				if !valid {
+				if cmd == "verify" {
+					out = P.showVerify(cfg.Verify())
+					want := verifyOracle(G)
+					if out != want {
+						bad(i, "Verify() reports %s, the definition of a well-formed grammar gives %s", out, want)
+					}
+					if out != "ok valid" {
+						tags["verify-error"] = true
+						for _, it := range strings.Split(strings.TrimSuffix(strings.TrimPrefix(out, "ok invalid ["), "]"), "; ") {
+							tags["verify:"+strings.SplitN(it, ":", 2)[0]] = true
+						}
+					}
+					return
+				}
+				if !valid && !forced {
 					out = "ok invalid"
 					return
 				}
-				switch f[0] {
+				if !valid {
+					tags["forced-on-invalid"] = true
+				}
+				switch cmd {
 				case "nullable":
 					got := strset{}
 					for n := range cfg.NullableNonTerminals().All() {
 						got[string(n)] = true
 					}
 					out = "ok " + showSet(got)
-					if showSet(got) != showSet(orc.Nullable) {
+					if judge && showSet(got) != showSet(orc.Nullable) {
 						bad(i, "NullableNonTerminals = %s, the non-terminals deriving ε are %s", showSet(got), showSet(orc.Nullable))
 					}
-				case "first":
+				case "first", "tryfirst":
 					if first == nil {
 						first = cfg.ComputeFIRST()
 					}
-					var s grammar.String[grammar.Symbol]
-					for _, w := range f[1:] {
-						if G.IsNonTerm(w) {
-							s = append(s, grammar.NonTerminal(w))
-						} else {
-							s = append(s, grammar.Terminal(w))
+					s := mkString(f[1:])
+					var r *grammar.TerminalsAndEmpty
+					if cmd == "tryfirst" {
+						if k := hx.Try(func() { r = first(s) }); k != "" {
+							out = "ok panicked"
+							tags["first-closure-panic-caught"] = true
+							return
 						}
+					} else {
+						r = first(s)
 					}
-					r := first(s)
-					got := termSet(r.Terminals)
+					if r2 := first(s); r2 != r {
+						bad(i, "FIRST(%s): the second call returned another object (the closure is documented to memoise)", showBody(f[1:]))
+					}
+					got := P.termSet(r.Terminals)
 					out = fmt.Sprintf("ok %s eps=%v", showSet(got), r.IncludesEmpty)
 					declared := true
 					for _, w := range f[1:] {
@@ -682,36 +812,42 @@ func Exec(c hx.Case) hx.Result {
 							declared = false
 						}
 					}
-					if declared {
+					if !declared {
+						tags["first-memo-partial-value"] = true
+					}
+					if declared && judge {
 						want, eps := orc.FirstStr(f[1:])
 						if showSet(got) != showSet(want) || eps != r.IncludesEmpty {
 							bad(i, "FIRST(%s) = %s eps=%v, left-corner reachability gives %s eps=%v", showBody(f[1:]), showSet(got), r.IncludesEmpty, showSet(want), eps)
 						}
 					}
 				case "follow":
-					if first == nil {
-						first = cfg.ComputeFIRST()
-					}
+					// FOLLOW is computed from a FIRST closure of its own (the one the `first` queries go to may hold
+					// partial values left behind by a caught panic)
 					if follow == nil {
-						follow = cfg.ComputeFOLLOW(first)
+						follow = cfg.ComputeFOLLOW(cfg.ComputeFIRST())
 					}
-					r := follow(grammar.NonTerminal(f[1]))
-					got := termSet(r.Terminals)
+					A := strings.TrimPrefix(f[1], "^")
+					r := follow(grammar.NonTerminal(A))
+					got := P.termSet(r.Terminals)
 					out = fmt.Sprintf("ok %s end=%v", showSet(got), r.IncludesEndmarker)
+					if !judge {
+						break
+					}
 					if orc.AllReach {
-						if showSet(got) != showSet(orc.follow[f[1]]) || r.IncludesEndmarker != orc.followEnd[f[1]] {
-							bad(i, "FOLLOW(%s) = %s end=%v, follow-graph reachability gives %s end=%v", f[1], showSet(got), r.IncludesEndmarker, showSet(orc.follow[f[1]]), orc.followEnd[f[1]])
+						if showSet(got) != showSet(orc.follow[A]) || r.IncludesEndmarker != orc.followEnd[A] {
+							bad(i, "FOLLOW(%s) = %s end=%v, follow-graph reachability gives %s end=%v", A, showSet(got), r.IncludesEndmarker, showSet(orc.follow[A]), orc.followEnd[A])
 						}
-					} else if orc.Reach[f[1]] {
+					} else if orc.Reach[A] {
 						// the property is silent here; what can follow A in a sentential form must still be present
 						sub := NewOracle(restricted(G, orc.Reach))
-						for t := range sub.follow[f[1]] {
+						for t := range sub.follow[A] {
 							if !got[t] {
-								bad(i, "FOLLOW(%s) = %s misses %s, which follows it in a sentential form", f[1], showSet(got), t)
+								bad(i, "FOLLOW(%s) = %s misses %s, which follows it in a sentential form", A, showSet(got), t)
 							}
 						}
-						if sub.followEnd[f[1]] && !r.IncludesEndmarker {
-							bad(i, "FOLLOW(%s) misses the endmarker although %s can end a sentential form", f[1], f[1])
+						if sub.followEnd[A] && !r.IncludesEndmarker {
+							bad(i, "FOLLOW(%s) misses the endmarker although %s can end a sentential form", A, A)
 						}
 					}
 				case "ll1":
@@ -727,7 +863,7 @@ func Exec(c hx.Case) hx.Result {
 									items = append(items, "?"+e.Error())
 									continue
 								}
-								a, b := showBody(symNames(le.Alpha)), showBody(symNames(le.Beta))
+								a, b := showBody(P.symNames(le.Alpha)), showBody(P.symNames(le.Beta))
 								msg := le.Error()
 								switch {
 								case strings.HasPrefix(msg, "FIRST(α) and FIRST(β)"):
@@ -747,6 +883,9 @@ func Exec(c hx.Case) hx.Result {
 						sort.Strings(items)
 						items = dedupSorted(items)
 						out = "ok false [" + strings.Join(items, "; ") + "]"
+					}
+					if !judge {
+						break
 					}
 					// the two claims of the property that relate IsLL1 to the table
 					t2, terr := predictive.BuildParsingTable(cfg.Clone())
@@ -771,20 +910,23 @@ func Exec(c hx.Case) hx.Result {
 					var confl, cells []string
 					for _, A := range rows {
 						for _, a := range cols {
-							ta := grammar.Terminal(a)
+							ta := grammar.Terminal(Bare(a))
 							if a == "$" {
 								ta = grammar.Endmarker
 							}
 							ps, sync, ok := predictive.VerifCell(table, grammar.NonTerminal(A), ta)
 							if !ok {
-								if orc.AllReach && len(orc.Cell(A, a)) > 0 {
+								if judge && orc.AllReach && len(orc.Cell(A, a)) > 0 {
 									bad(i, "M[%s,%s] is empty, the textbook construction gives %v", A, a, orc.Cell(A, a))
+								}
+								if !table.IsEmpty(grammar.NonTerminal(A), ta) || table.IsSync(grammar.NonTerminal(A), ta) {
+									bad(i, "M[%s,%s] has no entry, but IsEmpty=false or IsSync=true", A, a)
 								}
 								continue
 							}
 							var keys []string
 							for _, p := range ps {
-								keys = append(keys, prodKeyOf(p))
+								keys = append(keys, P.prodKeyOf(p))
 							}
 							sort.Strings(keys)
 							if len(keys) > 1 {
@@ -795,16 +937,22 @@ func Exec(c hx.Case) hx.Result {
 							} else if sync {
 								cells = append(cells, A+"/"+a+":sync")
 							}
-							if orc.AllReach && strings.Join(keys, "|") != strings.Join(orc.Cell(A, a), "|") {
+							if judge && orc.AllReach && strings.Join(keys, "|") != strings.Join(orc.Cell(A, a), "|") {
 								bad(i, "M[%s,%s] = %v, the textbook construction gives %v", A, a, keys, orc.Cell(A, a))
 							}
 							if !table.IsEmpty(grammar.NonTerminal(A), ta) != (len(keys) > 0) {
 								bad(i, "IsEmpty(%s,%s) disagrees with the stored productions %v", A, a, keys)
 							}
+							if table.IsSync(grammar.NonTerminal(A), ta) != (len(keys) == 0 && sync) {
+								bad(i, "IsSync(%s,%s) disagrees with the stored entry (productions %v, sync %v)", A, a, keys, sync)
+							}
+							if gp, ok := table.GetProduction(grammar.NonTerminal(A), ta); ok != (len(keys) == 1) || (ok && P.prodKeyOf(gp) != keys[0]) {
+								bad(i, "GetProduction(%s,%s) = %s, %v; the entry holds %v", A, a, P.prodKeyOf(gp), ok, keys)
+							}
 						}
 					}
 					// the conflicts in the order Conflicts() reports them (the error list of BuildParsingTable)
-					reported := conflictOrder(tableErr)
+					reported := conflictOrder(tableErr, P)
 					out = "ok conflicts=[" + strings.Join(reported, " ") + "] cells=[" + strings.Join(cells, " ") + "]"
 					{
 						a, b := append([]string{}, confl...), append([]string{}, reported...)
@@ -814,34 +962,94 @@ func Exec(c hx.Case) hx.Result {
 							bad(i, "Conflicts() reports %v, the cells with more than one production are %v", reported, confl)
 						}
 					}
-					trows, tcols := predictive.VerifRowsAndColumns(table)
-					if len(trows) != len(rows) || len(tcols) != len(cols) {
-						bad(i, "the table iterates %d rows x %d columns, the grammar has %d non-terminals and %d terminals + endmarker", len(trows), len(tcols), len(rows), len(cols)-1)
+					if judge {
+						trows, tcols := predictive.VerifRowsAndColumns(table)
+						if len(trows) != len(rows) || len(tcols) != len(cols) {
+							bad(i, "the table iterates %d rows x %d columns, the grammar has %d non-terminals and %d terminals + endmarker", len(trows), len(tcols), len(rows), len(cols)-1)
+						}
+						// a second run of the analyses (other iteration orders) yields equal sets (EqTerminalsAndEmpty / …Endmarker)
+					f2 := cfg.Clone().ComputeFIRST()
+					fo2 := cfg.Clone().ComputeFOLLOW(f2)
+					f1 := cfg.ComputeFIRST()
+					fo1 := cfg.ComputeFOLLOW(f1)
+					for _, A := range rows {
+						s := grammar.String[grammar.Symbol]{grammar.NonTerminal(A)}
+						if !grammar.EqTerminalsAndEmpty(f1(s), f2(s)) || !grammar.EqTerminalsAndEndmarker(fo1(grammar.NonTerminal(A)), fo2(grammar.NonTerminal(A))) {
+							bad(i, "two runs of ComputeFIRST / ComputeFOLLOW on one grammar disagree on %s", A)
+						}
 					}
-				case "parse", "ast":
+					// a second construction (other iteration orders) yields an Equal table
+						if t2, _ := predictive.BuildParsingTable(cfg.Clone()); !table.Equal(t2) || !t2.Equal(table) {
+							bad(i, "two constructions of the parsing table of one grammar are not Equal")
+						}
+					}
+				case "cell":
+					if len(f) != 3 {
+						return
+					}
+					ensureTable()
+					A, a := strings.TrimPrefix(f[1], "^"), f[2]
+					ta := grammar.Terminal(Bare(a))
+					if a == "$" {
+						ta = grammar.Endmarker
+					}
+					empty, sync := table.IsEmpty(grammar.NonTerminal(A), ta), table.IsSync(grammar.NonTerminal(A), ta)
+					gp, ok := table.GetProduction(grammar.NonTerminal(A), ta)
+					pk := "-"
+					if ok {
+						pk = P.prodKeyOf(gp)
+					} else if gp != nil {
+						bad(i, "GetProduction(%s,%s) answers false with a production", A, a)
+					}
+					out = fmt.Sprintf("ok empty=%v sync=%v prod=%s", empty, sync, pk)
+					tags["table-accessors"] = true
+					if judge && orc.AllReach {
+						var cell []string
+						inFollow := false
+						if G.IsNonTerm(A) && (a == "$" || contains(G.Terms, a)) {
+							cell = orc.Cell(A, a)
+							inFollow = (a == "$" && orc.followEnd[A]) || (a != "$" && orc.follow[A][a])
+						}
+						want := "-"
+						if len(cell) == 1 {
+							want = cell[0]
+						}
+						if empty != (len(cell) == 0) || pk != want || sync != (len(cell) == 0 && inFollow) {
+							bad(i, "M[%s,%s]: IsEmpty=%v IsSync=%v GetProduction=%s; the textbook cell is %v, %s in FOLLOW(%s): %v", A, a, empty, sync, pk, cell, a, A, inFollow)
+						}
+					}
+				case "parse", "ast", "parse0":
 					w := f[1:]
 					p := predictive.New(cfg, &sliceLexer{toks: w})
 					var prods []string
 					var err error
 					var root parser.Node
-					if f[0] == "parse" {
+					switch cmd {
+					case "parse":
 						err = p.Parse(func(*lexer.Token) error { return nil }, func(pr *grammar.Production) error {
-							prods = append(prods, prodKeyOf(pr))
+							prods = append(prods, P.prodKeyOf(pr))
 							return nil
 						})
-					} else {
+					case "parse0":
+						err = p.Parse(nil, nil)
+					default:
 						root, err = p.ParseAndBuildAST()
 					}
 					accepted := err == nil
 					switch {
 					case err != nil:
 						out = classify(err)
-					case f[0] == "parse":
+					case cmd == "parse":
 						out = "ok accept " + strings.Join(prods, "; ")
+					case cmd == "parse0":
+						out = "ok accept"
 					default:
 						var y []string
-						treeYield(root, &y)
-						out = "ok " + showTree(root) + " yield=[" + strings.Join(y, " ") + "]"
+						P.treeYield(root, &y)
+						out = "ok " + P.showTree(root) + " yield=[" + strings.Join(y, " ") + "]"
+					}
+					if !judge {
+						break
 					}
 					ensureTable()
 					if tableErr != nil {
@@ -863,33 +1071,136 @@ func Exec(c hx.Case) hx.Result {
 						}
 					}
 					if accepted != member {
-						bad(i, "%s %s: accepted=%v but sentence of G=%v", f[0], short(w), accepted, member)
+						bad(i, "%s %s: accepted=%v but sentence of G=%v", cmd, short(w), accepted, member)
 						return
 					}
-					if accepted && f[0] == "parse" {
+					if accepted && cmd == "parse" {
 						if msg := replayLeftmost(G, prods, w); msg != "" {
 							bad(i, "parse %s: %s", short(w), msg)
 						}
 					}
-					if accepted && f[0] == "ast" {
+					if accepted && cmd == "ast" {
 						var y, pre []string
-						treeYield(root, &y)
+						P.treeYield(root, &y)
 						if strings.Join(y, " ") != strings.Join(w, " ") {
 							bad(i, "ast %s: the yield of the tree is %s", short(w), short(y))
 						}
 						leaf := 0
 						if in, ok := root.(*parser.InternalNode); !ok || string(in.NonTerminal) != G.Start {
 							bad(i, "ast %s: the root is not the start symbol", short(w))
-						} else if msg := checkTree(root, G, &pre, &leaf); msg != "" {
+						} else if msg := P.checkTree(root, G, &pre, &leaf); msg != "" {
 							bad(i, "ast %s: %s", short(w), msg)
 						} else if msg := replayLeftmost(G, pre, w); msg != "" {
 							bad(i, "ast %s: pre-order productions: %s", short(w), msg)
 						}
 					}
+				case "parsef", "astf":
+					// parsef L T P : w   /   astf L : w      (see Driver/C10.lean)
+					nArgs := 3
+					if cmd == "astf" {
+						nArgs = 1
+					}
+					if len(f) < nArgs+2 || f[nArgs+1] != ":" {
+						return
+					}
+					w := f[nArgs+2:]
+					lexAt, tokAt, prodAt := faultArg(f[1]), -1, -1
+					if cmd == "parsef" {
+						tokAt, prodAt = faultArg(f[2]), faultArg(f[3])
+					}
+					lx := &sliceLexer{toks: w, failAt: lexAt}
+					if lexAt >= 0 {
+						lx.failErr = errLexer
+					}
+					p := predictive.New(cfg, lx)
+					var evs []string
+					nProd := 0
+					var err error
+					var root parser.Node
+					if cmd == "parsef" {
+						err = p.Parse(func(t *lexer.Token) error {
+							if t.Pos.Offset == tokAt {
+								return errToken
+							}
+							evs = append(evs, P.term(t.Terminal)+"@"+strconv.Itoa(t.Pos.Offset))
+							return nil
+						}, func(pr *grammar.Production) error {
+							nProd++
+							if nProd-1 == prodAt {
+								return errProd
+							}
+							evs = append(evs, P.prodKeyOf(pr))
+							return nil
+						})
+					} else {
+						root, err = p.ParseAndBuildAST()
+					}
+					ending := ""
+					var pe *parser.ParseError
+					switch {
+					case err == nil:
+						ending = "accept"
+					case errors.Is(err, errLexer):
+						ending = "fail lexer"
+						tags["fault:lexer"] = true
+					case errors.Is(err, errToken):
+						ending = "fail token@" + strconv.Itoa(tokAt)
+						tags["fault:token-callback"] = true
+						if !errors.As(err, &pe) || pe.Pos.Offset != tokAt {
+							bad(i, "the error of the token callback came back without the position of its token")
+						}
+					case errors.Is(err, errProd):
+						ending = "fail prod"
+						tags["fault:production-callback"] = true
+					default:
+						ending = strings.TrimPrefix(classify(err), "ok ")
+					}
+					if err != nil && !errors.As(err, &pe) {
+						bad(i, "%s returned an error that is not a *parser.ParseError: %v", cmd, err)
+					}
+					switch {
+					case ending == "table-error":
+						out = "ok table-error"
+					case cmd == "parsef":
+						out = "ok " + ending + " [" + strings.Join(evs, "; ") + "]"
+					case err == nil:
+						var y []string
+						P.treeYield(root, &y)
+						out = "ok " + P.showTree(root) + " yield=[" + strings.Join(y, " ") + "]"
+					default:
+						out = "ok " + ending
+						if root != nil {
+							bad(i, "ParseAndBuildAST returned an error and a tree")
+						}
+					}
+					if !judge {
+						break
+					}
+					ensureTable()
+					if tableErr != nil {
+						if out != "ok table-error" {
+							bad(i, "the table has conflicts but %s answered %q", cmd, out)
+						}
+						return
+					}
+					if orc.AllReach {
+						// the run an LL(1) parser makes by the textbook table, cut where the lexer or a callback fails
+						wantEnd, wantEvs := orc.Simulate(w, lexAt, tokAt, prodAt)
+						if wantEnd == "" {
+							break
+						}
+						if cmd == "parsef" {
+							if want := "ok " + wantEnd + " [" + strings.Join(wantEvs, "; ") + "]"; out != want {
+								bad(i, "%s: Parse answered %q; stopping the textbook run at the first failing call gives %q", op, out, want)
+							}
+						} else if (err == nil) != (wantEnd == "accept") || (err != nil && "ok "+wantEnd != out) {
+							bad(i, "%s: ParseAndBuildAST answered %q; the textbook run ends with %q", op, out, wantEnd)
+						}
+					}
 				}
 			})
 		}
-		if f[0] == "parse" || f[0] == "ast" {
+		if cmd == "parse" || cmd == "ast" || cmd == "parse0" || cmd == "parsef" || cmd == "astf" {
 			hung = !hx.WithTimeout(5*time.Second, run)
 		} else {
 			run()
@@ -904,20 +1215,21 @@ func Exec(c hx.Case) hx.Result {
 			res.Outs = append(res.Outs, "panic")
 			// the FIRST / FOLLOW closures panic on undeclared symbols by contract
 			undeclared := false
-			if f[0] == "first" || f[0] == "follow" {
+			if cmd == "first" || cmd == "follow" {
 				for _, w := range f[1:] {
 					if !G.IsNonTerm(w) && !contains(G.Terms, w) {
 						undeclared = true
 					}
 				}
-				if f[0] == "follow" && len(f) > 1 && !G.IsNonTerm(f[1]) {
+				if cmd == "follow" && len(f) > 1 && !G.IsNonTerm(f[1]) {
 					undeclared = true
 				}
 			}
-			if !undeclared {
+			if !undeclared && valid {
 				bad(i, "%s panicked (%s)", op, kind)
 			}
 			tags["panic"] = true
+			tags["panic:"+cmd] = true
 			break
 		}
 		res.Outs = append(res.Outs, out)
@@ -949,8 +1261,174 @@ func Exec(c hx.Case) hx.Result {
 	return res
 }
 
+// showVerify renders the error of Verify() as the Lean driver renders verifyErrors: a sorted multiset of kinds.
+func (q pr) showVerify(err error) string {
+	if err == nil {
+		return "ok valid"
+	}
+	var items []string
+	me, ok := err.(interface{ Unwrap() []error })
+	if !ok {
+		return "ok invalid [?" + err.Error() + "]"
+	}
+	between := func(msg, pre, suf string) (string, bool) {
+		if strings.HasPrefix(msg, pre) && strings.HasSuffix(msg, suf) && len(msg) >= len(pre)+len(suf) {
+			return msg[len(pre) : len(msg)-len(suf)], true
+		}
+		return "", false
+	}
+	for _, e := range me.Unwrap() {
+		msg := e.Error()
+		if _, ok := between(msg, "start symbol ", " not in the set of non-terminal symbols"); ok {
+			items = append(items, "start")
+		} else if _, ok := between(msg, "no production rule for start symbol ", ""); ok {
+			items = append(items, "start-prod")
+		} else if n, ok := between(msg, "no production rule for non-terminal symbol ", ""); ok {
+			items = append(items, "no-prod:"+n)
+		} else if n, ok := between(msg, "production head ", " not in the set of non-terminal symbols"); ok {
+			items = append(items, "head:"+n)
+		} else if n, ok := between(msg, "non-terminal symbol ", " not in the set of non-terminal symbols"); ok {
+			items = append(items, "nonterm:"+n)
+		} else if t, ok := between(msg, "terminal symbol ", " not in the set of terminal symbols"); ok {
+			if u, err := strconv.Unquote(t); err == nil {
+				t = u
+			}
+			items = append(items, "term:"+q.term(grammar.Terminal(t)))
+		} else {
+			items = append(items, "?"+msg)
+		}
+	}
+	sort.Strings(items)
+	return "ok invalid [" + strings.Join(items, "; ") + "]"
+}
+
+// verifyOracle: what a well-formed grammar is (DESIGN: start declared and with a production, every declared
+// non-terminal with a production, every head and body symbol declared), one complaint per offence.
+func verifyOracle(g gx.G) string {
+	var items []string
+	hasProd := map[string]bool{}
+	for _, p := range g.Prods {
+		hasProd[p.Head] = true
+	}
+	if !g.IsNonTerm(g.Start) {
+		items = append(items, "start")
+	}
+	if !hasProd[g.Start] {
+		items = append(items, "start-prod")
+	}
+	seen := map[string]bool{}
+	for _, n := range g.NonTerms {
+		if !hasProd[n] && !seen[n] {
+			items = append(items, "no-prod:"+n)
+		}
+		seen[n] = true
+	}
+	for _, p := range g.Prods {
+		if !g.IsNonTerm(p.Head) {
+			items = append(items, "head:"+p.Head)
+		}
+		for _, w := range p.Body {
+			switch {
+			case g.IsNonTerm(w):
+			case strings.HasPrefix(w, "^"):
+				items = append(items, "nonterm:"+w[1:])
+			case !contains(g.Terms, w):
+				items = append(items, "term:"+w)
+			}
+		}
+	}
+	if len(items) == 0 {
+		return "ok valid"
+	}
+	sort.Strings(items)
+	return "ok invalid [" + strings.Join(items, "; ") + "]"
+}
+
+// CellProds: the productions of the textbook cell M[A,a] (a == "$": endmarker).
+func (o *Oracle) CellProds(A, a string) []gx.P {
+	var ps []gx.P
+	for _, p := range o.G.Prods {
+		if p.Head != A {
+			continue
+		}
+		f, eps := o.FirstStr(p.Body)
+		in := false
+		if a == "$" {
+			in = eps && o.followEnd[A]
+		} else {
+			in = f[a] || (eps && o.follow[A][a])
+		}
+		if in {
+			ps = append(ps, p)
+		}
+	}
+	return ps
+}
+
+// Simulate runs the textbook LL(1) driver over the oracle's own table on input w and stops it where the lexer
+// (its call number lexAt answers an error) or a callback (the token at position tokAt, the production callback number
+// prodAt) fails; -1 = never.  It returns the ending ("accept", "reject <why>", "fail …") and the callbacks that
+// completed before it; ending "" when the table has a conflict on the way or the run is too long.
+func (o *Oracle) Simulate(w []string, lexAt, tokAt, prodAt int) (string, []string) {
+	lexErr := false
+	if lexAt >= 0 && lexAt <= len(w) {
+		w, lexErr = w[:lexAt], true
+	}
+	var evs []string
+	if len(w) == 0 && lexErr {
+		return "fail lexer", evs
+	}
+	stack := []string{o.G.Start}
+	pos, np := 0, 0
+	for steps := 0; len(stack) > 0; steps++ {
+		if steps > 200000 {
+			return "", nil
+		}
+		X := stack[len(stack)-1]
+		cur := "$"
+		if pos < len(w) {
+			cur = w[pos]
+		}
+		if !o.G.IsNonTerm(X) {
+			if X != cur {
+				return "reject terminal", evs
+			}
+			if pos == tokAt {
+				return "fail token@" + strconv.Itoa(pos), evs
+			}
+			evs = append(evs, X+"@"+strconv.Itoa(pos))
+			stack = stack[:len(stack)-1]
+			pos++
+			if pos == len(w) && lexErr {
+				return "fail lexer", evs
+			}
+			continue
+		}
+		cell := o.CellProds(X, cur)
+		if len(cell) == 0 {
+			return "reject noentry", evs
+		}
+		if len(cell) > 1 {
+			return "", nil
+		}
+		if np == prodAt {
+			return "fail prod", evs
+		}
+		np++
+		evs = append(evs, prodKey(cell[0].Head, cell[0].Body))
+		stack = stack[:len(stack)-1]
+		for k := len(cell[0].Body) - 1; k >= 0; k-- {
+			stack = append(stack, cell[0].Body[k])
+		}
+	}
+	if pos < len(w) {
+		return "reject trailing", evs
+	}
+	return "accept", evs
+}
+
 // conflictOrder lists the cells named by the errors of BuildParsingTable, in the order reported.
-func conflictOrder(err error) []string {
+func conflictOrder(err error, q pr) []string {
 	if err == nil {
 		return nil
 	}
@@ -978,6 +1456,7 @@ func conflictOrder(err error) []string {
 			if u, err := strconv.Unquote(a); err == nil {
 				a = u
 			}
+			a = q.term(grammar.Terminal(a))
 		}
 		out = append(out, inner[:k]+"/"+a)
 	}
@@ -1333,6 +1812,225 @@ func RandomProd(r *hx.Rand, g gx.G) (gx.P, bool) {
 	return gx.P{}, false
 }
 
+// ---------------------------------------------------------------- malformed grammars, shared names, faults
+
+func cloneG(g gx.G) gx.G {
+	h := gx.G{Terms: append([]string{}, g.Terms...), NonTerms: append([]string{}, g.NonTerms...), Start: g.Start}
+	for _, p := range g.Prods {
+		h.Prods = append(h.Prods, gx.P{Head: p.Head, Body: append([]string{}, p.Body...)})
+	}
+	return h
+}
+
+// MalformKinds is the number of ways Malform breaks a grammar.
+const MalformKinds = 9
+
+// Malform breaks a valid grammar in way number kind: each error branch of Verify(), and the shapes on which
+// ComputeFIRST / ComputeFOLLOW / the FIRST closure dereference the nil answer of a table lookup.
+// "z" is a terminal that is not declared, "^Z" a non-terminal that is not declared.
+func Malform(r *hx.Rand, g gx.G, kind int) gx.G {
+	h := cloneG(g)
+	undecl := func() string {
+		if r.Chance(1, 2) {
+			return "z"
+		}
+		return "^Z"
+	}
+	switch kind % MalformKinds {
+	case 0: // start symbol not declared (and so without a production)
+		h.Start = "Z"
+	case 1: // start symbol not declared, but the head of a production
+		h.Start = "Z"
+		h.Prods = append(h.Prods, gx.P{Head: "Z", Body: []string{hx.Pick(r, g.Terms)}})
+	case 2: // no production for the start symbol
+		var ps []gx.P
+		for _, p := range h.Prods {
+			if p.Head != g.Start {
+				ps = append(ps, p)
+			}
+		}
+		h.Prods = ps
+	case 3: // a declared non-terminal without production, used in a body or not
+		h.NonTerms = append(h.NonTerms, "Y")
+		if r.Chance(2, 3) {
+			h.Prods = append(h.Prods, gx.P{Head: hx.Pick(r, g.NonTerms), Body: []string{hx.Pick(r, g.Terms), "Y"}})
+		}
+	case 4: // a production whose head is not declared
+		h.Prods = append(h.Prods, gx.P{Head: "Z", Body: []string{hx.Pick(r, g.Terms)}})
+	case 5: // an undeclared symbol somewhere in an existing body
+		if len(h.Prods) == 0 {
+			h.Prods = append(h.Prods, gx.P{Head: hx.Pick(r, g.NonTerms)})
+		}
+		k := r.Intn(len(h.Prods))
+		b := h.Prods[k].Body
+		at := r.Intn(len(b) + 1)
+		nb := append(append(append([]string{}, b[:at]...), undecl()), b[at:]...)
+		h.Prods[k].Body = nb
+	case 6: // an undeclared symbol right behind a non-terminal that stands behind a terminal: ComputeFIRST stops at the
+		// terminal, ComputeFOLLOW asks the closure for FIRST of the rest
+		h.Prods = append(h.Prods, gx.P{Head: hx.Pick(r, g.NonTerms), Body: []string{hx.Pick(r, g.Terms), hx.Pick(r, g.NonTerms), undecl()}})
+	case 7: // an undeclared symbol at the front of a new body
+		h.Prods = append(h.Prods, gx.P{Head: hx.Pick(r, g.NonTerms), Body: []string{undecl(), hx.Pick(r, g.Terms)}})
+	case 8: // an undeclared non-terminal as the last symbol behind a terminal (only FOLLOW's table lacks it)
+		h.Prods = append(h.Prods, gx.P{Head: hx.Pick(r, g.NonTerms), Body: []string{hx.Pick(r, g.Terms), "^Z"}})
+	}
+	return h
+}
+
+// SharedNames renames one terminal to the name of a non-terminal (written 'X) and puts it in front of up to two of
+// X's alternatives: Terminal("X") and NonTerminal("X") in one grammar.
+func SharedNames(r *hx.Rand, g gx.G) gx.G {
+	x := hx.Pick(r, g.NonTerms)
+	t := hx.Pick(r, g.Terms)
+	h := gx.G{NonTerms: append([]string{}, g.NonTerms...), Start: g.Start}
+	for _, u := range g.Terms {
+		if u == t {
+			u = Q + x
+		}
+		h.Terms = append(h.Terms, u)
+	}
+	seen := map[string]bool{}
+	fronted := 0
+	for _, p := range g.Prods {
+		q := gx.P{Head: p.Head}
+		for _, w := range p.Body {
+			if w == t && !g.IsNonTerm(w) {
+				w = Q + x
+			}
+			q.Body = append(q.Body, w)
+		}
+		if p.Head == x && fronted < 2 && (len(q.Body) == 0 || q.Body[0] != Q+x) && r.Chance(1, 2) {
+			q.Body = append([]string{Q + x}, q.Body...)
+			fronted++
+		}
+		if k := prodKey(q.Head, q.Body); !seen[k] {
+			seen[k] = true
+			h.Prods = append(h.Prods, q)
+		}
+	}
+	return h
+}
+
+// ForcedQueries: verify, then the analyses run on the grammar whether it passes Verify() or not (a panic ends the
+// case, so the order is shuffled: every analysis gets to be the one that dereferences nil).
+func ForcedQueries(r *hx.Rand, g gx.G) []string {
+	ops := append(g.Lines(), "verify", "nullable")
+	var qs []string
+	qs = append(qs, "!nullable", "!ll1", "!table")
+	for _, n := range g.NonTerms {
+		qs = append(qs, "!follow "+n)
+	}
+	ss := Strings(g, 2)
+	for k := 0; k < 4 && len(ss) > 0; k++ {
+		qs = append(qs, "!first "+strings.Join(ss[r.Intn(len(ss))], " "))
+	}
+	for _, p := range g.Prods {
+		if r.Chance(1, 2) {
+			qs = append(qs, strings.TrimRight("!first "+strings.Join(p.Body, " "), " "))
+		}
+	}
+	ws := g.Words(2)
+	for k := 0; k < 3; k++ {
+		qs = append(qs, strings.TrimRight("!parse "+ws[r.Intn(len(ws))], " "))
+	}
+	qs = append(qs, strings.TrimRight("!ast "+ws[r.Intn(len(ws))], " "), "!cell "+hx.Pick(r, g.NonTerms)+" "+hx.Pick(r, g.Terms))
+	for i := len(qs) - 1; i > 0; i-- {
+		j := r.Intn(i + 1)
+		qs[i], qs[j] = qs[j], qs[i]
+	}
+	return append(append(ops, qs...), "unchanged")
+}
+
+// MemoQueries: the FIRST closure is asked for strings that run into an undeclared symbol behind a nullable prefix
+// (caught panic), then for the same strings again (the memo table answers with the partial value), mixed with
+// well-formed strings; at the end FOLLOW of a non-terminal that does not exist.
+func MemoQueries(r *hx.Rand, g gx.G) []string {
+	var ops []string
+	nul := g.Nullable()
+	var nuls []string
+	for _, n := range g.NonTerms {
+		if nul[n] {
+			nuls = append(nuls, n)
+		}
+	}
+	for k := 0; k < 4; k++ {
+		var s []string
+		for j := r.Intn(3); j > 0 && len(nuls) > 0; j-- {
+			s = append(s, hx.Pick(r, nuls))
+		}
+		if r.Chance(1, 3) {
+			s = append(s, hx.Pick(r, g.NonTerms))
+		}
+		if r.Chance(2, 3) {
+			s = append(s, []string{"z", "^Z"}[r.Intn(2)])
+		}
+		if r.Chance(1, 2) {
+			s = append(s, hx.Pick(r, g.Terms))
+		}
+		line := strings.TrimRight(strings.Join(s, " "), " ")
+		ops = append(ops, strings.TrimRight("tryfirst "+line, " "), strings.TrimRight("first "+line, " "))
+		if r.Chance(1, 2) {
+			ops = append(ops, strings.TrimRight("tryfirst "+line, " "))
+		}
+	}
+	return ops
+}
+
+// CellQueries: the accessors on every cell, on a row and a column that do not exist.
+func CellQueries(r *hx.Rand, g gx.G) []string {
+	var ops []string
+	for _, n := range append(append([]string{}, g.NonTerms...), "^Z") {
+		for _, t := range append(append([]string{}, g.Terms...), "$", "z") {
+			if n == "^Z" || t == "z" || r.Chance(2, 3) {
+				ops = append(ops, "cell "+n+" "+t)
+			}
+		}
+	}
+	return ops
+}
+
+// FaultQueries: Parse with a lexer that fails at one of its calls and callbacks that return an error at one of theirs,
+// ParseAndBuildAST with a failing lexer, Parse without callbacks; over the words ws.
+func FaultQueries(r *hx.Rand, ws []string, perWord int) []string {
+	var ops []string
+	arg := func(n int) string {
+		if n < 0 {
+			return "-"
+		}
+		return strconv.Itoa(n)
+	}
+	for _, w := range ws {
+		n := 0
+		if w != "" {
+			n = strings.Count(w, " ") + 1
+		}
+		for k := 0; k < perWord; k++ {
+			l, t, p := -1, -1, -1
+			switch r.Intn(6) {
+			case 0:
+				l = r.Intn(n + 2)
+			case 1:
+				t = r.Intn(n + 1)
+			case 2:
+				p = r.Intn(2*n + 3)
+			case 3:
+				l, t, p = r.Intn(n+2), r.Intn(n+1), r.Intn(2*n+3)
+			case 4:
+				t, p = r.Intn(n+1), r.Intn(2*n+3)
+			case 5: // nothing fails
+			}
+			ops = append(ops, strings.TrimRight(fmt.Sprintf("parsef %s %s %s : %s", arg(l), arg(t), arg(p), w), " "))
+		}
+		if r.Chance(1, 2) {
+			ops = append(ops, strings.TrimRight(fmt.Sprintf("astf %s : %s", arg(r.Intn(n+2)-1), w), " "))
+		}
+		if r.Chance(1, 3) {
+			ops = append(ops, strings.TrimRight("parse0 "+w, " "))
+		}
+	}
+	return ops
+}
+
 func descLine(kind string, p gx.P) string {
 	return strings.TrimRight(kind+" "+p.Head+" : "+strings.Join(p.Body, " "), " ")
 }
@@ -1430,6 +2128,43 @@ func Main(run *hx.Run) {
 				}
 			}
 			c := hx.Case{Header: fmt.Sprintf("comp=analysis mix=in-place shuffle=%d", r.Intn(1<<30)), Ops: ops}
+			run.Do("analysis", c, Exec)
+		}
+	}
+	// grammars Verify() rejects: which errors it reports, and what the analyses do when they are run all the same
+	{
+		r := run.R.Fork("malformed")
+		for k := 0; k < run.Scale(160); k++ {
+			g := Malform(r, gx.Random(r, mixes[names[r.Intn(len(names))]]), k)
+			if r.Chance(1, 5) {
+				g = Malform(r, g, r.Intn(MalformKinds))
+			}
+			c := hx.Case{Header: fmt.Sprintf("comp=analysis mix=malformed shuffle=%d", r.Intn(1<<30)), Ops: ForcedQueries(r, g)}
+			run.Do("analysis", c, Exec)
+		}
+	}
+	// the memo table of the FIRST closure, the table accessors, FOLLOW of a non-terminal that does not exist;
+	// half of the grammars with a terminal named like a non-terminal
+	{
+		r := run.R.Fork("memo-and-accessors")
+		for k := 0; k < run.Scale(120); k++ {
+			g := gx.Random(r, mixes[names[r.Intn(len(names))]])
+			if k%2 == 1 {
+				g = SharedNames(r, g)
+			}
+			ops := append(g.Lines(), "verify")
+			ops = append(ops, MemoQueries(r, g)...)
+			ops = append(ops, "table")
+			ops = append(ops, CellQueries(r, g)...)
+			ops = append(ops, queriesOnly(r, g, 25)...)
+			ops = append(ops, MemoQueries(r, g)...)
+			switch r.Intn(3) {
+			case 0:
+				ops = append(ops, "follow Z")
+			case 1:
+				ops = append(ops, "first "+hx.Pick(r, g.Terms)+" z", "first z")
+			}
+			c := hx.Case{Header: fmt.Sprintf("comp=analysis mix=memo-and-accessors shuffle=%d", r.Intn(1<<30)), Ops: ops}
 			run.Do("analysis", c, Exec)
 		}
 	}
